@@ -9,6 +9,7 @@ The source code is distributed under BSD license, see the file License.txt
 at the top-level directory.
 */
 #include "slu_mt_ddefs.h"
+#include "slu_mt_verif.h"
 
 void
 pxgstrf_pruneL(
@@ -84,6 +85,7 @@ pxgstrf_pruneL(
 	    
     	    if ( do_prune ) {
 
+		SLU_VERIF_EV("PruneBegin", SLU_VERIF_SELF(), jcol, irep);
 	     	/* Do a quicksort-type partition */
 	        while ( kmin <= kmax ) {
 	    	    if ( perm_r[lsub[kmax]] == EMPTY ) 
@@ -103,6 +105,7 @@ pxgstrf_pruneL(
 
 	        xprune[irep] = kmin;	/* Pruning */
 		ispruned[irep] = 1;
+		SLU_VERIF_EV("PruneEnd", SLU_VERIF_SELF(), jcol, irep);
 
 #ifdef CHK_PRUNE
 if (irep >= LOCOL && irep >= HICOL && jcol >= LOCOL && jcol <= HICOL)	
